@@ -1,16 +1,5 @@
 #![allow(dead_code)]
-mod engine;
-mod evgen;
-mod gen;
-mod instr;
-mod lowlevel;
-mod problems;
-mod props;
-mod pycase;
-mod run;
-mod stiff;
-mod trees;
-mod util;
+use vf::*;
 
 use engine::*;
 use std::time::Instant;
